@@ -34,6 +34,8 @@ func checkC15(c *Ctx) {
 	c.Expect("C15-R10", 1)
 	c.Rule("C15-R11", "TGoto and TColor are right whoever else is expanding a string: the state of one expansion (buffers, stack, dynamic variables) is allocated by the call, nothing pooled or package-level but the static variables (= C07-R10)")
 	c.Expect("C15-R11", 3)
+	c.Rule("C15-R12", "every well-formed padding specification is removed, pad character or not (that decides the sleep only): each way round TPuts' scanning loop passes the terminator skip or the write that keeps a rejected marker")
+	c.Expect("C15-R12", 1)
 	c.Rule("C15-R8", "the interpreter's binary operators are the ones the colour and addressing programs rely on (%< %> %= %- %+ ... : operand order, operator agreement); TColor and TGoto answer through them")
 	c.Expect("C15-R8", 10)
 	if err := tpSelfTest(); err != nil {
@@ -49,6 +51,7 @@ func checkC15(c *Ctx) {
 	c.Expect("C15-R9", 1)
 	checkLookupDoesNotRegister(c, p, "C15-R9")
 	checkDecimalOutput(c, p, "C15-R10")
+	checkWellFormedPaddingRemoved(c, p, "C15-R12")
 	if tp := p.Fn("terminfo:(*Terminfo).TParm"); tp != nil {
 		c.asRule("C07-R10", "C15-R11", func() { c07CallLocal(c, p, tp) })
 	} else {
